@@ -15,7 +15,8 @@
 //! Everything random is produced by the real code: secrets by `fill_ternary_prob` (replayed on a twin
 //! `ScalarZnx` from the same seed to read them back), keys by the `*_encrypt_sk` functions, `cls=enc`
 //! inputs by `glwe_encrypt_sk` / `lwe_encrypt_sk`.  `dirty=1` fills the scratch arena with a garbage
-//! pattern before the operation (results must not depend on it).
+//! pattern before the operation (results must not depend on it); `dirty=0` zeroes the arena (key generation
+//! has used it before), which is the state the model's `dft0 = 0` describes.
 use std::collections::HashMap;
 use std::io::{BufRead, Write};
 
@@ -218,6 +219,8 @@ macro_rules! ks_backend {
                     for (i, x) in scratch.borrow().data.iter_mut().enumerate() {
                         *x = pat[i & 7];
                     }
+                } else {
+                    scratch.borrow().data.fill(0);
                 }
             };
             let garbage = |v: &mut VecZnx<Vec<u8>>| {
